@@ -26,7 +26,11 @@ func buildOverlay(repo string, muts []string) (map[string][]byte, error) {
 	}
 	ov := map[string][]byte{}
 	for _, m := range muts {
-		parts := strings.SplitN(m, "|", 3)
+		sep := "|"
+		if strings.Contains(m, "\x1f") {
+			sep = "\x1f" // used by the self-test runner: Go source may contain '|'
+		}
+		parts := strings.SplitN(m, sep, 3)
 		if len(parts) != 3 {
 			return nil, fmt.Errorf("bad -mut %q", m)
 		}
